@@ -51,6 +51,12 @@ func AccessPath(v ssa.Value) (path string, ok bool) {
 		return AccessPath(x.X)
 	case *ssa.ChangeInterface:
 		return AccessPath(x.X)
+	case *ssa.Call:
+		return "call:" + Short(CalleeName(x)), true
+	case *ssa.Extract:
+		if c, ok := x.Tuple.(*ssa.Call); ok {
+			return "call:" + Short(CalleeName(c)) + "#" + itoa(x.Index), true
+		}
 	case *ssa.Alloc:
 		// a local holding a captured variable: name it by its comment
 		return "local:" + x.Comment, x.Comment != ""
